@@ -307,7 +307,16 @@ def replay(ck, path):
     if not f:
         print('replay file names no failing input: %s' % d.get('broken_obligations'))
         return 1
-    oracle_pr(ck, f['dims'], f['m'], f['J'], f['name'], arr_from(f['x']))
+    if f.get('oracle') == 'pr_bank':
+        oracle_pr_bank(ck, f['dims'], f['m'], f['J'], tuple(arr_from(a) for a in f['bank']), arr_from(f['x']))
+    elif f.get('oracle') == 'prbank':
+        import pywt
+        print('defect of the biorthogonality conditions of %s: %.3g' % (f['name'], prbank_defect(pywt.Wavelet(f['name']))))
+        ck.fail('wavelet %s violates the biorthogonality conditions' % f['name'], f) if prbank_defect(pywt.Wavelet(f['name'])) > 1e-9 else None
+    elif f.get('oracle') == 'pr2':
+        oracle_pr2(ck, f['m'], f['J'], f['ncol'], f['nrow'], arr_from(f['x']))
+    else:
+        oracle_pr(ck, f['dims'], f['m'], f['J'], tuple(f['name']) if isinstance(f['name'], list) else f['name'], arr_from(f['x']))
     for fl in ck.failures:
         print('REPLAY-FAILS: ' + fl['desc'])
     for k, (t, n) in ck.known_hits.items():
